@@ -22,6 +22,7 @@ func profileFor(prop string) Profile {
 		p.MaxRules, p.MaxClauses, p.PSegmentOp, p.PPrereq, p.PTargets, p.PCtxTargets, p.PKindAttr, p.PRollout = 2, 3, 0.03, 0.0, 0.05, 0.05, 0.15, 0.1
 		p.MaxFlags, p.MaxSegs, p.POff = 0, 1, 0.02
 		p.Ops = append(append([]string{}, allOps...), "in", "in", "in") // equality sets have a precomputed form of their own
+		p.PZeroAge = 0.2
 	case "C05":
 		p.PSegmentOp, p.PBigSeg, p.MinSegs, p.MaxSegs, p.PPrereq, p.PTargets, p.PCtxTargets, p.POff = 0.75, 0.0, 2, 5, 0.05, 0.05, 0.05, 0.02
 		p.PMulti = 0.5
@@ -49,7 +50,7 @@ func profileFor(prop string) Profile {
 		// what the preprocessor touches: equality sets, regex / date / semver operands, target and segment key lists
 		p.Ops = append(append([]string{}, allOps...), "in", "in", "matches", "before", "after", "before", "after", "semVerEqual", "semVerLessThan", "semVerGreaterThan")
 		p.PSegmentOp, p.MinSegs, p.PTargets, p.PCtxTargets, p.POff, p.PPrereq = 0.3, 1, 0.4, 0.3, 0.05, 0.2
-		p.PDateAttr = 0.4
+		p.PDateAttr, p.PZeroAge = 0.4, 0.35
 	}
 	return p
 }
